@@ -1,4 +1,5 @@
 //! Runs the real implementation on case files; prints canonical observations (one JSON per line).
+mod own;
 mod slices;
 mod write;
 
@@ -12,6 +13,7 @@ fn main() {
     match args[1].as_str() {
         "write" => write::run(&input),
         "slices" => slices::run(&input),
+        "own" => own::run(&input),
         other => {
             eprintln!("unknown area {other}");
             std::process::exit(2);
